@@ -5,6 +5,8 @@ import (
 	"net"
 
 	"github.com/tsuna/gohbase/hrpc"
+	"github.com/tsuna/gohbase/pb"
+	"google.golang.org/protobuf/proto"
 )
 
 // C03 — a failing connection completes every outstanding request exactly once.
@@ -76,4 +78,50 @@ func VerifConnFailure() {
 		verifAssert(r.Error == ErrClientClosed, "it is refused with the client-closed error")
 	}
 	verifReach("failed")
+}
+
+// VerifFailureWithResponses: two requests are written, the server's responses arrive in any
+// order and the connection's k-th operation fails (k symbolic: a write, or the arming / clearing
+// of the read deadline on the sender's or the reader's side). The reader does what
+// receiveRPCs does: a ServerError from receive fails the client. Every request is completed
+// exactly once — with its response, or with a connection-level error.
+func VerifFailureWithResponses() {
+	conn := &vConn{}
+	conn.failAt = verifInt(1, verifParam("K"))
+	c := vNewClient(conn, 1)
+	h := &vC18{c: c, conn: conn}
+	reg := vReg("t,,1")
+	ctx := context.Background()
+	calls := []hrpc.Call{vGet(ctx, "a", reg), vGet(ctx, "b", reg)}
+	for _, cl := range calls {
+		if err := c.trySend(cl); err != nil {
+			// what QueueRPC does with the error of a failed send
+			returnResult(cl, nil, err)
+		}
+	}
+	// the responses that were produced before the connection went down, in any order
+	first := verifInt(0, 1)
+	n := verifInt(0, 2)
+	for k := 0; k < n; k++ {
+		i := first
+		if k == 1 {
+			i = 1 - first
+		}
+		if _, outstanding := c.sent[uint32(i+1)]; !outstanding {
+			continue // already failed: the reader has stopped
+		}
+		hdr := vAppendDelimited(nil, vWire(&pb.ResponseHeader{CallId: proto.Uint32(uint32(i + 1))}, false))
+		body := vAppendDelimited(hdr, vWire(&pb.GetResponse{Result: &pb.Result{}}, false))
+		err := h.c.receive(&vReader{b: vFrame(body, uint32(len(body)))})
+		vPending, vUnmarshalFails = nil, nil
+		if _, ok := err.(ServerError); ok {
+			c.fail(err) // receiveRPCs: fail the client and stop reading
+			break
+		}
+	}
+	c.Close()
+	for _, cl := range calls {
+		verifAssert(vResults(cl) == 1, "every request is completed exactly once, whichever connection operation fails")
+	}
+	verifReach("completed")
 }
